@@ -1,6 +1,7 @@
 package main
 
 import (
+	"go/ast"
 	"fmt"
 	"reflect"
 	"go/token"
@@ -174,6 +175,26 @@ func (e *Engine) callFunction(s *State, f *Frame, x *ssa.Call, callee *ssa.Funct
 			}
 			for gname, gv := range e.lastGhosts {
 				f.callResults[fmt.Sprintf("%s#%d.%s", funcKey(callee), k, gname)] = gv
+			}
+			// ghost definitions attached to this static call site
+			if f.contract != nil && f.contract.LetAtCall != nil {
+				site := e.callSiteName(f, x, funcKey(callee))
+				if cls := f.contract.LetAtCall[site]; len(cls) > 0 {
+					lc := &evalCtx{e: e, s: s, env: copyEnv(f.params), names: f.names, oldHeap: f.entryHeap, oldEnv: f.params, pkg: f.fn.Pkg.Pkg, frame: f}
+					lc.env["ret"] = r
+					for i, p := range callee.Params {
+						if i < len(args) {
+							lc.env["arg_"+p.Name()] = args[i]
+						}
+					}
+					for gname, gv := range e.lastGhosts {
+						lc.env["ghost_"+gname] = gv
+					}
+					for _, cl := range cls {
+						s.assume(lc.evalBool(cl.Expr))
+					}
+					e.note("ghost definition at call site " + site + " of " + funcKey(f.fn) + " (let_at_call): uninterpreted specification functions are given the value of this call's result; assumed")
+				}
 			}
 			f.ip++
 			return true
@@ -696,6 +717,7 @@ func (e *Engine) atReturn(s *State, f *Frame, res []Value, pos token.Pos) {
 	if pos == token.NoPos {
 		pos = f.fn.Pos()
 	}
+	e.frameCheck(s, f, ct, pos)
 	// ghost assertions (proof hints): may mention the function's local variables by name;
 	// parameters and results take precedence over locals of the same name
 	localNames := map[string]nameRef{}
@@ -1105,4 +1127,96 @@ func (e *Engine) proveLemma(lm *Lemma) (err error) {
 	goal := c.evalBool(lm.Body)
 	e.obligs = append(e.obligs, &Oblig{Name: "lemma/" + lm.Name, Func: "lemma." + lm.Name, Mode: PLAIN, Kind: "lemma", Goal: goal, Expect: "unsat", Src: lm.Src, Props: lm.Props})
 	return nil
+}
+
+// frameCheck: the frame condition of modular reasoning.  Callers havoc exactly what a contract's `modifies`
+// clauses name; so every object that existed at entry (reachable through parameters) or is a package-level
+// variable, and whose content differs at return, must be rooted in a `modifies` clause.  (Writes to objects the
+// function allocated itself are not visible to callers.)  One structural obligation per offending object.
+func (e *Engine) frameCheck(s *State, f *Frame, ct *Contract, pos token.Pos) {
+	if os.Getenv("GOVC_NO_FRAME") != "" {
+		return
+	}
+	allowed := map[*Object]bool{}
+	ac := &evalCtx{e: e, s: s, env: copyEnv(f.params), oldHeap: f.entryHeap, oldEnv: f.params, pkg: f.fn.Pkg.Pkg}
+	for _, cl := range ct.Modifies {
+		func() {
+			defer func() { recover() }()
+			saved := ac.s.heap
+			ac.s.heap = f.entryHeap
+			defer func() { ac.s.heap = saved }()
+			if p := ac.evalAddr(cl.Expr); p.Obj != nil {
+				allowed[p.Obj] = true
+			}
+		}()
+		// `modifies s` for a slice-typed s: the elements of its backing store
+		func() {
+			defer func() { recover() }()
+			saved := ac.s.heap
+			ac.s.heap = f.entryHeap
+			defer func() { ac.s.heap = saved }()
+			if ex, ok := cl.Expr.(ast.Expr); ok {
+				if sl, ok := ac.deref(ac.eval(ex)).(VSlice); ok && sl.Obj != nil {
+					allowed[sl.Obj] = true
+					// a slice of pointers (hint outputs []*big.Int): the pointees as well
+					if sq, ok := ac.s.heap[sl.Obj].(*Seq); ok {
+						for _, el := range sq.Conc {
+							if p, ok := el.(VPtr); ok && p.Obj != nil {
+								allowed[p.Obj] = true
+							}
+						}
+					}
+				}
+			}
+		}()
+	}
+	var offenders []string
+	for obj, v0 := range f.entryHeap {
+		v1, ok := s.heap[obj]
+		if !ok || allowed[obj] {
+			continue
+		}
+		if !sameHeapEntry(v0, v1) {
+			offenders = append(offenders, obj.name)
+		}
+	}
+	for obj, v1 := range s.heap {
+		if gv, isGlobal := e.globalVal[obj]; isGlobal && !allowed[obj] && e.mapInvFor(obj) == nil {
+			if _, atEntry := f.entryHeap[obj]; !atEntry && !sameHeapEntry(gv, v1) {
+				offenders = append(offenders, "global "+obj.name)
+			}
+		}
+	}
+	if len(offenders) == 0 {
+		return
+	}
+	sort.Strings(offenders)
+	e.emit(s, "frame", "", BoolC(false), pos, "writes outside the contract's modifies clauses: "+strings.Join(offenders, ", "))
+}
+
+func sameHeapEntry(a, b interface{}) bool {
+	if sa, ok := a.(*Seq); ok {
+		sb, ok2 := b.(*Seq)
+		return ok2 && sa == sb
+	}
+	if ma, ok := a.(*MapVal); ok {
+		mb, ok2 := b.(*MapVal)
+		return ok2 && ma == mb
+	}
+	// the range-check ledger of goldilocks.Chip is append-only and read only by checkCollected; above
+	// rangeCheckerCheck it is handled by the deferred-check rule (DESIGN §3.2), not by modifies clauses
+	if sa, ok := a.(VStruct); ok {
+		if sb, ok2 := b.(VStruct); ok2 && sa.T != nil && sa.T == sb.T && len(sa.F) == len(sb.F) {
+			for i := range sa.F {
+				if sa.T.Field(i).Name() == "rangeCheckCollected" {
+					continue
+				}
+				if !reflect.DeepEqual(sa.F[i], sb.F[i]) {
+					return false
+				}
+			}
+			return true
+		}
+	}
+	return reflect.DeepEqual(a, b)
 }
